@@ -26,7 +26,7 @@ def run(ck):
         "callsite and recomputes MAX_LEVEL. Atomicity of one emission w.r.t. a concurrent reload is not decided.")
     ck.assumptions += ["std::sync::RwLock / parking_lot semantics", "C01.R5 and C01.R7 hold (checked by the C01 check)"]
     ck.rule("C12.R1", "modify: Ok only after lock, closure, guard drop, then rebuild_interest_cache", floor=2)
-    ck.rule("C12.R2", "collector gone / lock poisoned => Err and the closure is not run", floor=2)
+    ck.rule("C12.R2", "collector gone / lock poisoned => Err and the closure is not run", floor=1)
     ck.rule("C12.R3", "reload::Subscriber methods lock per call; no field caches the inner value", floor=20)
     ck.rule("C12.R4", "the rebuild covers every callsite and the max level", floor=2)
     for cfg in configs:
